@@ -85,6 +85,18 @@ class CastCast(RewriteRuleClassBase):
                 f"Intermediate cast elimination not recognized as valid from {type2} to {type3}. "
                 f"Cast-Cast rule may be incomplete for this combination."
             )
+        # The first cast must be exact, otherwise the value is rounded twice
+        # (e.g. float64 1 + 2**-11 + 2**-30 -> float32 -> float16 is 1.0, directly it is 1 + 2**-10).
+        type1 = x.dtype
+        if type1 is None or type1 == ir.DataType.DOUBLE:
+            return check_result.fail("Source type is not exactly representable in float32.")
+        if type3 == ir.DataType.BFLOAT16 and type1 in (
+            ir.DataType.INT32,
+            ir.DataType.INT64,
+            ir.DataType.UINT32,
+            ir.DataType.UINT64,
+        ):
+            return check_result.fail("Source type is not exactly representable in float32.")
         return check_result
 
     def rewrite(self, op, x: ir.Value, to: ir.Attr, to_ignored: ir.Attr):
